@@ -54,12 +54,12 @@ def replay_pose(kind="single"):
         for _ in range(6):
             c = rng.uniform(-5, 5, size=3)
             tmpl += np.exp(-((zz - c[0]) ** 2 + (yy - c[1]) ** 2 + (xx - c[2]) ** 2) / 4.0).astype(np.float32)
-        scale = 1.0
+        scale = 0.5
         worst = 0.0
         cases = []
         for seed in range(3):
             r = np.random.default_rng(seed)
-            p_true = np.array([32.0, 33.0, 31.0]) + r.uniform(-0.5, 0.5, 3)
+            p_true = (np.array([32.0, 33.0, 31.0]) + r.uniform(-0.5, 0.5, 3)) * scale
             R_true = Rotation.from_rotvec(r.normal(size=3) * 0.6)
             sim = TomogramSimulator(order=3, scale=scale)
             sim.add_molecules(Molecules([p_true], Rotation.from_quat(R_true.as_quat()[None])), tmpl)
@@ -70,14 +70,21 @@ def replay_pose(kind="single"):
             shift_internal = np.array([[1.5, -2.0, 1.0], [-2.0, 1.0, 1.5], [2.0, 2.0, -1.5]][seed])
             # true = input moved by (shift s, rotation q):  p* = p + R_in s,  R* = R_in R_q   =>  R_in = R* R_q^-1, p = p* - R_in s
             R_in = R_true * q.inv()
-            p_in = p_true - R_in.apply(shift_internal)
-            ld = SubtomogramLoader(tomo, Molecules([p_in], Rotation.from_quat(R_in.as_quat()[None])), order=3, scale=scale)
-            out = ld.align(tmpl, max_shifts=3.0, rotations=((30, 30), (0, 0), (0, 0)))
-            perr = float(np.abs(out.molecules.pos[0] - p_true).max())
+            p_in = p_true - R_in.apply(shift_internal) * scale
+            feats = {"g": [0]} if kind == "group" else None
+            ld = SubtomogramLoader(tomo, Molecules([p_in], Rotation.from_quat(R_in.as_quat()[None]), features=feats), order=3, scale=scale)
+            rots = ((30, 30), (0, 0), (0, 0))
+            if kind == "multi":
+                out = ld.align_multi_templates([tmpl, tmpl[::-1].copy()], max_shifts=3.0 * scale, rotations=rots)
+            elif kind == "group":
+                out = next(iter(ld.groupby("g").align(tmpl, max_shifts=3.0 * scale, rotations=rots)))[1]
+            else:
+                out = ld.align(tmpl, max_shifts=3.0 * scale, rotations=rots)
+            perr = float(np.abs(out.molecules.pos[0] - p_true).max()) / scale
             rerr = float((out.molecules.rotator[0] * R_true.inv()).magnitude())
             worst = max(worst, perr)
             cases.append({"position_error_px": perr, "rotation_error_rad": rerr, "reported_shift": [float(v) for v in out.features.select(["align-dz", "align-dy", "align-dx"]).row(0)]})
-        return worst > 0.35, {"max_position_error_px": worst, "cases": cases}
+        return worst > 0.35, {"entry": kind, "scale": scale, "max_position_error_px": worst, "cases": cases}
 
     return run
 
